@@ -14,6 +14,7 @@ import (
 	"verif/harness"
 	_ "verif/props/all"
 	"verif/props/c18"
+	"verif/props/c20"
 )
 
 var (
@@ -29,6 +30,8 @@ var (
 	fTree      = flag.String("tree", "", "tree hash")
 	fReplay    = flag.String("replay", "", "replay a file literally")
 	fKnown     = flag.String("known", "", "comma separated open known-finding keys")
+	fProgress  = flag.String("progress", "", "file holding the index of the run in flight")
+	fGen       = flag.Int("gen", -1, "only generate this run's case into -out")
 )
 
 // bubble runs one simulated run inside a synctest bubble. The bubble ends when the
@@ -61,6 +64,7 @@ func bubble(t *testing.T) func(p harness.Prop, c *harness.Case) *harness.Outcome
 
 func TestSim(t *testing.T) {
 	c18.Quiesce = synctest.Wait
+	c20.Quiesce = synctest.Wait
 	if *fReplay != "" {
 		rc := harness.Replay(*fReplay, bubble(t))
 		os.Exit(rc)
@@ -69,7 +73,7 @@ func TestSim(t *testing.T) {
 		t.Skip("no property given")
 	}
 	a := harness.WorkerArgs{Prop: *fProp, Tier: *fTier, Seed: *fSeed, Worker: *fWorker, Workers: *fWorkers, Runs: *fRuns,
-		Budget: time.Duration(*fBudget * float64(time.Second)), Out: *fOut, ReplayDir: *fReplayDir, Tree: *fTree, ExecWrap: bubble(t)}
+		Budget: time.Duration(*fBudget * float64(time.Second)), Out: *fOut, ReplayDir: *fReplayDir, Tree: *fTree, ExecWrap: bubble(t), Progress: *fProgress, GenOnly: *fGen}
 	a.KnownKeys = map[string]bool{}
 	for _, k := range strings.Split(*fKnown, ",") {
 		if k != "" {
